@@ -8,7 +8,7 @@ log=/tmp/confirm_$id.log; : > $log
 cd $wt && git checkout -q -- . && git clean -qfd
 mkdir -p $(dirname $dest); cp $demo $dest
 echo "== demo WITHOUT patch" >> $log; cargo test $demoargs --offline >> $log 2>&1; echo "rc_without=$?" >> $log
-git apply /tmp/seed_$id/patch.diff || { echo "PATCH DOES NOT APPLY" >> $log; exit 1; }
+git apply ${SEEDSRC:-/tmp/seed_$id}/patch.diff || { echo "PATCH DOES NOT APPLY" >> $log; exit 1; }
 echo "== demo WITH patch" >> $log; cargo test $demoargs --offline >> $log 2>&1; echo "rc_with=$?" >> $log
 rm -f $dest
 for c in "$@"; do echo "== existing tests of $c WITH patch" >> $log; cargo test -p $c --offline >> $log 2>&1; echo "rc_tests_$c=$?" >> $log; done
